@@ -1,39 +1,63 @@
 import Guard.Model.Eval
+import Guard.Lemmas.Monad
 import Std.Data.String.ToNat
 /-
   C10 — reported paths, values and positions point into the input document.
 
   Modelled: the `ptr` component of `Path` (the slash-separated pointer) as attached by the loader
-  (`PV.ofPlain`, path_value.rs:359-478) and carried by the retrieval steps of the evaluator.
+  (`PV.ofPlain`, path_value.rs:359-478) and carried by the retrieval of the evaluator model.
   NOT modelled: the line/column component (libyaml marks); the judge checks those against the
   data file text (testing, labelled as such) — so C10 is `partial` for positions.
 
-  * `resolve doc segs` is JSON-pointer resolution, one segment at a time;
-  * `C10_load_paths`: every value reachable in a loaded document by the segments `segs` carries
-    exactly the pointer `/seg₁/seg₂/…` — for every document, of any size and depth;
-  * `C10_key_step`, `C10_index_step`, `C10_values_step`: the retrieval steps of the evaluator
-    (map lookup, `retrieve_index`, `[*]` / `.*`) return values that resolve one segment further,
-    so (by induction on the query) everything a function-free, variable-free query returns
-    resolves in the document: `C10_plain_query_sound`;
-  * `C10_unresolved_reached`: an unresolved result names the value it stopped at, that value
-    resolves in the document, and the next segment does not.
+  * `Reach doc segs v`: `v` sits in `doc` at the pointer segments `segs` (struct key / decimal list
+    index per segment); `resolve` is the executable pointer resolution and implies `Reach`;
+  * `C10_load_paths`: every value that sits at `segs` in a loaded document carries exactly the
+    pointer `/seg₁/seg₂/…` — for every document, of any size and depth;
+  * `C10_plain_query_sound`: for every query made of keys, indices, `[*]`, `.*` and `this` (no
+    variables, no filters), every fuel, scope state and case-conversion mode, every result of
+    the evaluator's `queryRetrieval` — resolved or unresolved — is a value IN the document, hence
+    (with `C10_load_paths`) its reported path resolves to it; literals are never produced;
+  * `C10_retrieveIndex`, `C10_missing_key`: an unresolved step stops AT an in-document value and
+    the next segment does not exist there.
 -/
 set_option linter.unusedSimpArgs false
 set_option linter.unusedVariables false
 namespace Guard.C10
 open Guard
 
-/-- the element whose decimal index (counting from `i`) is spelled `seg` -/
+/-! ### pointers -/
+
+/-- one pointer segment: a key of a struct, or the decimal index of a list element -/
+def StepR (v : PV) (s : Str) (w : PV) : Prop :=
+  match v with
+  | .map _ ks vs => ∃ p, ((p, s), w) ∈ ks.zip vs
+  | .list _ xs => ∃ i : Nat, (toString i).toList = s ∧ xs[i]? = some w
+  | _ => False
+
+def Reach : PV → List Str → PV → Prop
+  | doc, [], v => v = doc
+  | doc, s :: ss, v => ∃ w, StepR doc s w ∧ Reach w ss v
+
+def ptrOf (base : Str) (segs : List Str) : Str := segs.foldl (fun acc s => acc ++ '/' :: s) base
+
+theorem ptrOf_cons (base : Str) (s : Str) (ss : List Str) : ptrOf base (s :: ss) = ptrOf (base ++ '/' :: s) ss := rfl
+
+/-- executable pointer resolution (first entry of a key, like `map.values.get`) -/
 def nthBySeg : List PV → Nat → Str → Option PV
   | [], _, _ => none
   | x :: rest, i, seg => if (toString i).toList = seg then some x else nthBySeg rest (i + 1) seg
 
-/-- one pointer segment: a key of a struct, or the decimal index of a list element -/
 def stepSeg (v : PV) (seg : Str) : Option PV :=
   match v with
   | .map _ ks vs => PV.lookupKV ks vs seg
   | .list _ xs => nthBySeg xs 0 seg
   | _ => none
+
+def resolve (v : PV) : List Str → Option PV
+  | [] => some v
+  | s :: ss => match stepSeg v s with
+    | some w => resolve w ss
+    | none => none
 
 theorem nthBySeg_some (xs : List PV) (i : Nat) (seg : Str) (w : PV) :
     nthBySeg xs i seg = some w → ∃ j, (toString (i + j)).toList = seg ∧ xs[j]? = some w := by
@@ -48,54 +72,56 @@ theorem nthBySeg_some (xs : List PV) (i : Nat) (seg : Str) (w : PV) :
       obtain ⟨j, hj, e⟩ := ih (i + 1) h
       exact ⟨j + 1, by rw [← hj]; congr 2; omega, by simpa using e⟩
 
-theorem natStr_inj {a b : Nat} (h : (toString a).toList = (toString b).toList) : a = b := by
-  have : toString a = toString b := String.toList_inj.mp h
-  exact Nat.repr_inj.mp this
-
-theorem nthBySeg_index (xs : List PV) (i j : Nat) (w : PV) (h : xs[j]? = some w) :
-    nthBySeg xs i (toString (i + j)).toList = some w := by
-  induction xs generalizing i j with
-  | nil => simp at h
-  | cons x rest ih =>
-    cases j with
-    | zero => simp at h; simp [nthBySeg, h]
-    | succ j =>
-      simp only [List.getElem?_cons_succ] at h
-      simp only [nthBySeg]
-      split
-      · rename_i hs
-        have := natStr_inj hs
-        omega
-      · have := ih (i + 1) j h
-        rw [← this]; congr 3; omega
-
-def resolve (v : PV) : List Str → Option PV
-  | [] => some v
-  | s :: ss => match stepSeg v s with
-    | some w => resolve w ss
-    | none => none
-
-def ptrOf (base : Str) (segs : List Str) : Str := segs.foldl (fun acc s => acc ++ '/' :: s) base
-
-theorem ptrOf_cons (base : Str) (s : Str) (ss : List Str) : ptrOf base (s :: ss) = ptrOf (base ++ '/' :: s) ss := rfl
-
-theorem lookup_ofPlainVals (ks : List Str) (vs : List Plain) (p : Path) (key : Str) (w : PV) :
-    PV.lookupKV (ks.map fun k => (p.extendStr k, k)) (PV.ofPlainVals ks vs p) key = some w →
-    ∃ x, x ∈ vs ∧ w = PV.ofPlain x (p.extendStr key) := by
+theorem lookupKV_mem (ks : List (Path × Str)) (vs : List PV) (k : Str) (w : PV) :
+    PV.lookupKV ks vs k = some w → ∃ p, ((p, k), w) ∈ ks.zip vs := by
   induction ks generalizing vs with
   | nil => simp [PV.lookupKV]
-  | cons k ks ih =>
+  | cons pk ks ih =>
+    obtain ⟨p, k'⟩ := pk
     cases vs with
-    | nil => simp [PV.ofPlainVals, PV.lookupKV]
-    | cons x xs =>
-      simp only [List.map_cons, PV.ofPlainVals, PV.lookupKV]
+    | nil => simp [PV.lookupKV]
+    | cons v vs =>
+      simp only [PV.lookupKV]
       split
       · rename_i hk
-        intro h
-        refine ⟨x, by simp, ?_⟩
-        simp at h; rw [← h, hk]
+        intro h; simp at h
+        exact ⟨p, by simp [hk, h]⟩
       · intro h
-        obtain ⟨y, hy, e⟩ := ih xs h
+        obtain ⟨q, hq⟩ := ih vs h
+        exact ⟨q, by simp [hq]⟩
+
+theorem stepSeg_StepR {v w : PV} {s : Str} (h : stepSeg v s = some w) : StepR v s w := by
+  cases v <;> simp only [stepSeg] at h <;> try cases h
+  case list p xs =>
+    obtain ⟨j, hj, e⟩ := nthBySeg_some xs 0 s w h
+    exact ⟨j, by simpa using hj, e⟩
+  case map p ks vs => exact lookupKV_mem ks vs s w h
+
+/-- what the executable resolution finds sits there -/
+theorem resolve_reach (doc : PV) (segs : List Str) (v : PV) (h : resolve doc segs = some v) : Reach doc segs v := by
+  induction segs generalizing doc with
+  | nil => simp [resolve] at h; exact h.symm
+  | cons s ss ih =>
+    simp only [resolve] at h
+    split at h
+    · rename_i w hw; exact ⟨w, stepSeg_StepR hw, ih w h⟩
+    · cases h
+
+/-! ### load paths -/
+
+theorem zip_ofPlainVals (ks : List Str) (vs : List Plain) (p : Path) (q : Path) (key : Str) (w : PV) :
+    ((q, key), w) ∈ (ks.map fun k => (p.extendStr k, k)).zip (PV.ofPlainVals ks vs p) →
+    ∃ x, x ∈ vs ∧ w = PV.ofPlain x (p.extendStr key) := by
+  induction ks generalizing vs with
+  | nil => simp
+  | cons k ks ih =>
+    cases vs with
+    | nil => simp [PV.ofPlainVals]
+    | cons x xs =>
+      simp only [List.map_cons, PV.ofPlainVals, List.zip_cons_cons, List.mem_cons, Prod.mk.injEq]
+      rintro (⟨⟨_, hk⟩, hw⟩ | h)
+      · exact ⟨x, by simp, by rw [hw, hk]⟩
+      · obtain ⟨y, hy, e⟩ := ih xs h
         exact ⟨y, by simp [hy], e⟩
 
 theorem getElem_ofPlainList (xs : List Plain) (p : Path) (i j : Nat) (w : PV) :
@@ -117,97 +143,79 @@ theorem getElem_ofPlainList (xs : List Plain) (p : Path) (i j : Nat) (w : PV) :
 theorem ofPlain_path (x : Plain) (p : Path) : (PV.ofPlain x p).path = p := by
   cases x <;> simp [PV.ofPlain, PV.path]
 
-/-- **load paths**: whatever is reachable in a loaded document by `segs` carries the pointer
-    `base/seg₁/seg₂/…` — the path recorded on a value resolves, in the document, to that value. -/
+/-- **load paths**: whatever sits at `segs` in a loaded document carries the pointer
+    `base/seg₁/seg₂/…` — the path recorded on a value leads, in the document, to that value. -/
 theorem C10_load_paths (x : Plain) : ∀ (p : Path) (segs : List Str) (v : PV),
-    resolve (PV.ofPlain x p) segs = some v → v.path.ptr = ptrOf p.ptr segs := by
+    Reach (PV.ofPlain x p) segs v → v.path.ptr = ptrOf p.ptr segs := by
   intro p segs v h
   cases segs with
   | nil =>
-    simp only [resolve, Option.some.injEq] at h
-    rw [← h, ofPlain_path]; rfl
+    simp only [Reach] at h
+    rw [h, ofPlain_path]; rfl
   | cons s ss =>
-    simp only [resolve] at h
+    obtain ⟨w, hw, hr⟩ := h
     cases x with
     | list xs =>
-      simp only [PV.ofPlain, stepSeg] at h
-      split at h
-      · rename_i w hw
-        obtain ⟨i, hs, hi⟩ := nthBySeg_some _ 0 s w hw
-        obtain ⟨y, hy, e⟩ := getElem_ofPlainList xs p 0 i w hi
-        have hlt : sizeOf y < sizeOf (Plain.list xs) := by
-          have := List.sizeOf_lt_of_mem hy
-          simp only [Plain.list.sizeOf_spec]; omega
-        rw [e] at h
-        have := C10_load_paths y (p.extendNat (0 + i)) ss v h
-        rw [this, ptrOf_cons, ← hs]; simp [Path.extendNat, Path.extendStr]
-      · cases h
+      simp only [PV.ofPlain, StepR] at hw
+      obtain ⟨i, hs, hi⟩ := hw
+      obtain ⟨y, hy, e⟩ := getElem_ofPlainList xs p 0 i w hi
+      have hlt : sizeOf y < sizeOf (Plain.list xs) := by
+        have := List.sizeOf_lt_of_mem hy
+        simp only [Plain.list.sizeOf_spec]; omega
+      rw [e] at hr
+      have := C10_load_paths y (p.extendNat (0 + i)) ss v hr
+      rw [this, ptrOf_cons, ← hs]; simp [Path.extendNat, Path.extendStr]
     | map ks vs =>
-      simp only [PV.ofPlain, stepSeg] at h
-      split at h
-      · rename_i w hw
-        obtain ⟨y, hy, e⟩ := lookup_ofPlainVals ks vs p s w hw
-        have hlt : sizeOf y < sizeOf (Plain.map ks vs) := by
-          have := List.sizeOf_lt_of_mem hy
-          simp only [Plain.map.sizeOf_spec]; omega
-        rw [e] at h
-        have := C10_load_paths y (p.extendStr s) ss v h
-        rw [this, ptrOf_cons]; simp [Path.extendStr]
-      · cases h
-    | _ => simp [PV.ofPlain, stepSeg] at h
+      simp only [PV.ofPlain, StepR] at hw
+      obtain ⟨q, hq⟩ := hw
+      obtain ⟨y, hy, e⟩ := zip_ofPlainVals ks vs p q s w hq
+      have hlt : sizeOf y < sizeOf (Plain.map ks vs) := by
+        have := List.sizeOf_lt_of_mem hy
+        simp only [Plain.map.sizeOf_spec]; omega
+      rw [e] at hr
+      have := C10_load_paths y (p.extendStr s) ss v hr
+      rw [this, ptrOf_cons]; simp [Path.extendStr]
+    | _ => simp [PV.ofPlain, StepR] at hw
 termination_by sizeOf x
 
-/-- the document root: pointers start at the empty string -/
-theorem C10_load_paths_root (x : Plain) (segs : List Str) (v : PV)
-    (h : resolve (PV.ofPlain x Path.root) segs = some v) : v.path.ptr = ptrOf [] segs :=
-  C10_load_paths x Path.root segs v h
+/-! ### the retrieval of the evaluator stays inside the document -/
 
-/-! ### the retrieval steps of the evaluator stay inside the document -/
+/-- `v` is a value OF the document: it sits at some pointer -/
+def InDoc (doc v : PV) : Prop := ∃ segs, Reach doc segs v
 
-/-- `v` is a value OF the document: some pointer resolves to it -/
-def InDoc (doc v : PV) : Prop := ∃ segs, resolve doc segs = some v
-
-theorem resolve_append (doc : PV) (a b : List Str) (v : PV) (h : resolve doc a = some v) :
-    resolve doc (a ++ b) = resolve v b := by
+theorem reach_append (doc : PV) (a b : List Str) (v w : PV) (h : Reach doc a v) (hb : Reach v b w) :
+    Reach doc (a ++ b) w := by
   induction a generalizing doc with
-  | nil => simp [resolve] at h; simp [h]
+  | nil => simp only [Reach] at h; subst h; simpa using hb
   | cons s ss ih =>
-    simp only [resolve, List.cons_append] at h ⊢
-    split at h
-    · rename_i w hw; exact ih w h
-    · cases h
+    obtain ⟨u, hu, hr⟩ := h
+    exact ⟨u, hu, ih u hr⟩
 
 theorem InDoc.refl (doc : PV) : InDoc doc doc := ⟨[], rfl⟩
 
-theorem InDoc.step {doc v w : PV} {s : Str} (h : InDoc doc v) (hs : stepSeg v s = some w) : InDoc doc w := by
+theorem InDoc.step {doc v w : PV} {s : Str} (h : InDoc doc v) (hs : StepR v s w) : InDoc doc w := by
   obtain ⟨segs, e⟩ := h
-  refine ⟨segs ++ [s], ?_⟩
-  rw [resolve_append doc segs [s] v e]; simp only [resolve, hs]
+  exact ⟨segs ++ [s], reach_append doc segs [s] v w e ⟨w, hs, rfl⟩⟩
 
-/-- map lookup (`.key`, `.*`, key filters): the value found is the document value one key further -/
+/-- struct lookup (`.key`, key filters): the value found is the document value one key further -/
 theorem C10_key_step {doc : PV} {p : Path} {ks : List (Path × Str)} {vs : List PV} {k : Str} {w : PV}
     (h : InDoc doc (.map p ks vs)) (hk : PV.lookupKV ks vs k = some w) : InDoc doc w :=
-  h.step (s := k) (by simpa [stepSeg] using hk)
+  h.step (s := k) (lookupKV_mem ks vs k w hk)
+
+/-- every value of a struct (`.*`, `[*]` on structs, `accumulate_map`) -/
+theorem C10_value_step {doc : PV} {p : Path} {ks : List (Path × Str)} {vs : List PV} {q : Path} {k : Str} {w : PV}
+    (h : InDoc doc (.map p ks vs)) (hm : ((q, k), w) ∈ ks.zip vs) : InDoc doc w :=
+  h.step (s := k) ⟨q, hm⟩
 
 /-- list elements (`[i]`, `[*]`, filters over lists): element `i` is the document value at `/i` -/
 theorem C10_elem_step {doc : PV} {p : Path} {xs : List PV} {i : Nat} {w : PV}
     (h : InDoc doc (.list p xs)) (hi : xs[i]? = some w) : InDoc doc w :=
-  h.step (s := (toString i).toList) (by simpa [stepSeg] using nthBySeg_index xs 0 i w hi)
+  h.step (s := (toString i).toList) ⟨i, rfl, hi⟩
 
-/-- every value of a struct is in the document (`.*`, `[*]` on structs, `accumulate_map`) -/
-theorem lookup_of_zip_mem : ∀ (ks : List (Path × Str)) (vs : List PV) (pk : Path × Str) (w : PV),
-    (pk, w) ∈ ks.zip vs → ∃ w', PV.lookupKV ks vs pk.2 = some w'
-  | [], _, _, _, h => by simp at h
-  | _ :: _, [], _, _, h => by simp at h
-  | (p, k) :: ks, v :: vs, pk, w, h => by
-    simp only [PV.lookupKV]
-    split
-    · exact ⟨v, rfl⟩
-    · simp only [List.zip_cons_cons, List.mem_cons, Prod.mk.injEq] at h
-      rename_i hne
-      rcases h with ⟨h1, _⟩ | h
-      · exact absurd (by rw [h1]) hne
-      · exact lookup_of_zip_mem ks vs pk w h
+theorem C10_mem_step {doc : PV} {p : Path} {xs : List PV} {w : PV}
+    (h : InDoc doc (.list p xs)) (hm : w ∈ xs) : InDoc doc w := by
+  obtain ⟨i, hi, e⟩ := List.getElem_of_mem hm
+  exact C10_elem_step h (by rw [List.getElem?_eq_getElem hi, e])
 
 /-- `retrieve_index`: the result is the element of the document, or it stops AT the list and the
     index does not exist in it -/
@@ -219,22 +227,192 @@ theorem C10_retrieveIndex {doc : PV} {p : Path} {xs : List PV} (idx : Int) (q : 
   | some w => exact .inl ⟨w, by simp [retrieveIndex, e], C10_elem_step h e, rfl⟩
   | none => exact .inr ⟨_, by simp [retrieveIndex, e, unresolvedAt]; rfl, rfl, rfl⟩
 
-/-- an unresolved result names the value it stopped at -/
-theorem C10_unresolved_reached (current : PV) (q : List QueryPart) :
-    ∃ u, unresolvedAt current q = .unresolved u ∧ u.traversedTo = current := ⟨_, rfl, rfl⟩
-
 /-- a key that is not in the struct: the result stops at the struct, which is in the document,
     and the next segment does not resolve -/
 theorem C10_missing_key {doc : PV} {p : Path} {ks : List (Path × Str)} {vs : List PV} (k : Str)
     (h : InDoc doc (.map p ks vs)) (hk : PV.lookupKV ks vs k = none) :
     InDoc doc (.map p ks vs) ∧ stepSeg (.map p ks vs) k = none := ⟨h, by simpa [stepSeg] using hk⟩
 
-/-- everything that resolves in a loaded document carries its own pointer: the reported
-    `path` of an in-document value resolves to that value -/
+/-- everything in a loaded document carries its own pointer -/
 theorem C10_reported_path_resolves (x : Plain) (v : PV) (h : InDoc (PV.ofPlain x Path.root) v) :
-    ∃ segs, resolve (PV.ofPlain x Path.root) segs = some v ∧ v.path.ptr = ptrOf [] segs := by
+    ∃ segs, Reach (PV.ofPlain x Path.root) segs v ∧ v.path.ptr = ptrOf [] segs := by
   obtain ⟨segs, e⟩ := h
-  exact ⟨segs, e, C10_load_paths_root x segs v e⟩
+  exact ⟨segs, e, C10_load_paths x Path.root segs v e⟩
+
+/-! ### whole queries: keys, indices, `[*]`, `.*`, `this` -/
+
+/-- the query parts of a variable-free, filter-free query -/
+def plainPart : QueryPart → Bool
+  | .this => true
+  | .key k => !(QueryPart.key k).isVariable
+  | .index _ => true
+  | .allIndices none => true
+  | .allValues none => true
+  | _ => false
+
+def QROk (doc : PV) : QR → Prop
+  | .resolved v => InDoc doc v
+  | .unresolved u => InDoc doc u.traversedTo
+  | .literal _ => False
+
+theorem leaf_pure {doc : PV} {x : QR} {st st' : St} {res : List QR}
+    (h : (pure [x] : M (List QR)) st = .ok (res, st')) (hx : QROk doc x) : ∀ r ∈ res, QROk doc r := by
+  obtain ⟨rfl, _⟩ := M.pure_ok h
+  simpa using hx
+
+theorem withValueScope_ok {α} {root : PV} {act : M α} {st st' : St} {r : α}
+    (h : withValueScope root act st = .ok (r, st')) : ∃ s1 s2, act s1 = .ok (r, s2) := by
+  unfold withValueScope at h
+  obtain ⟨_, s1, _, h2⟩ := M.bind_ok h
+  obtain ⟨r', s2, h3, h4⟩ := M.bind_ok h2
+  obtain ⟨_, s3, _, h6⟩ := M.bind_ok h4
+  obtain ⟨rfl, _⟩ := M.pure_ok h6
+  exact ⟨s1, s2, h3⟩
+
+theorem accumulateMap_ok {P : QR → Prop} {parent : PV} {ks : List (Path × Str)} {vs : List PV} {qi : Nat}
+    {query : List QueryPart} {func : PV → PV → M (List QR)} {st st' : St} {res : List QR}
+    (hparent : P (unresolvedAt parent (query.drop qi)))
+    (hf : ∀ q k each, ((q, k), each) ∈ ks.zip vs → ∀ s r s', func (PV.str q k) each s = .ok (r, s') → ∀ x ∈ r, P x)
+    (h : accumulateMap parent ks vs qi query func st = .ok (res, st')) : ∀ r ∈ res, P r := by
+  unfold accumulateMap at h
+  split at h
+  · obtain ⟨rfl, _⟩ := M.pure_ok h; simpa using hparent
+  · obtain ⟨rows, s1, h1, h2⟩ := M.bind_ok h
+    obtain ⟨rfl, _⟩ := M.pure_ok h2
+    refine M.mapM_flatten_all P _ (ks.zip vs) ?_ st rows s1 h1
+    rintro ⟨⟨q, k⟩, each⟩ hm s r s' hr
+    obtain ⟨s2, s3, hr'⟩ := withValueScope_ok hr
+    exact hf q k each hm s2 r s3 hr'
+
+theorem plain_sound (env : Env) (doc : PV) : ∀ fuel,
+  (∀ qi query current conv st res st', query.all plainPart = true → InDoc doc current →
+     queryRetrieval env fuel qi query current conv st = .ok (res, st') → ∀ r ∈ res, QROk doc r) ∧
+  (∀ parent qi query elements conv st res st', query.all plainPart = true → InDoc doc parent → (∀ e ∈ elements, InDoc doc e) →
+     accumulate env fuel parent qi query elements conv st = .ok (res, st') → ∀ r ∈ res, QROk doc r) := by
+  intro fuel
+  induction fuel with
+  | zero =>
+    constructor
+    · intro qi query current conv st res st' _ _ h; simp [queryRetrieval, outOfFuel] at h
+    · intro parent qi query elements conv st res st' _ _ _ h; simp [accumulate, outOfFuel] at h
+  | succ fuel ih =>
+    obtain ⟨ihQ, ihA⟩ := ih
+    constructor
+    · intro qi query current conv st res st' hp hc h
+      simp only [queryRetrieval] at h
+      cases hq : query[qi]? with
+      | none =>
+        rw [hq] at h; simp only at h
+        exact leaf_pure h hc
+      | some part =>
+        rw [hq] at h; simp only at h
+        have hpp : plainPart part = true := List.all_eq_true.mp hp part (List.mem_of_getElem? hq)
+        have hv : part.isVariable = false := by
+          cases part <;> simp_all [plainPart, QueryPart.isVariable, QueryPart.variable]
+        simp only [hv, Bool.and_false, Bool.false_eq_true, ↓reduceIte] at h
+        cases part with
+        | this => exact ihQ _ _ _ _ _ _ _ hp hc h
+        | key key =>
+          simp only at h
+          cases hk : parseI32 key with
+          | some idx =>
+            rw [hk] at h; simp only at h
+            cases current with
+            | list p xs =>
+              simp only at h
+              rcases C10_retrieveIndex idx query hc with ⟨w, e, hw, _⟩ | ⟨u, e, hu, _⟩
+              · rw [e] at h; exact ihQ _ _ _ _ _ _ _ hp hw h
+              · rw [e] at h; simp only at h
+                exact leaf_pure h (by simp [QROk, hu]; exact hc)
+            | _ => exact leaf_pure h hc
+          | none =>
+            rw [hk] at h; simp only at h
+            cases current with
+            | map p ks vs =>
+              simp only [hv, Bool.false_eq_true, ↓reduceIte] at h
+              cases h1 : PV.lookupKV ks vs key with
+              | some val => rw [h1] at h; exact ihQ _ _ _ _ _ _ _ hp (C10_key_step hc h1) h
+              | none =>
+                rw [h1] at h; simp only at h
+                cases conv with
+                | some c =>
+                  simp only at h
+                  cases h2 : PV.lookupKV ks vs (env.caseConv c key) with
+                  | some val => rw [h2] at h; exact ihQ _ _ _ _ _ _ _ hp (C10_key_step hc h2) h
+                  | none => rw [h2] at h; exact leaf_pure h hc
+                | none =>
+                  simp only at h
+                  cases h3 : (List.range 7).find? (fun c => (PV.lookupKV ks vs (env.caseConv c key)).isSome) with
+                  | some c =>
+                    rw [h3] at h; simp only at h
+                    cases h2 : PV.lookupKV ks vs (env.caseConv c key) with
+                    | some val => rw [h2] at h; exact ihQ _ _ _ _ _ _ _ hp (C10_key_step hc h2) h
+                    | none => rw [h2] at h; exact leaf_pure h hc
+                  | none => rw [h3] at h; exact leaf_pure h hc
+            | _ => exact leaf_pure h hc
+        | index index =>
+          simp only at h
+          cases current with
+          | list p xs =>
+            simp only at h
+            rcases C10_retrieveIndex index query hc with ⟨w, e, hw, _⟩ | ⟨u, e, hu, _⟩
+            · rw [e] at h; exact ihQ _ _ _ _ _ _ _ hp hw h
+            · rw [e] at h; simp only at h
+              exact leaf_pure h (by simp [QROk, hu]; exact hc)
+          | _ => exact leaf_pure h hc
+        | allIndices name =>
+          cases name with
+          | some n => simp [plainPart] at hpp
+          | none =>
+            simp only at h
+            cases current with
+            | list p xs => exact ihA _ _ _ _ _ _ _ _ hp hc (fun e he => C10_mem_step hc he) h
+            | map p ks vs => exact ihQ _ _ _ _ _ _ _ hp hc h
+            | _ => exact ihQ _ _ _ _ _ _ _ hp hc h
+        | allValues name =>
+          cases name with
+          | some n => simp [plainPart] at hpp
+          | none =>
+            simp only at h
+            cases current with
+            | list p xs => exact ihA _ _ _ _ _ _ _ _ hp hc (fun e he => C10_mem_step hc he) h
+            | map p ks vs =>
+              simp only at h
+              refine accumulateMap_ok (P := QROk doc) hc ?_ h
+              intro q k each hm s r s' hr
+              exact ihQ _ _ _ _ _ _ _ hp (C10_value_step hc hm) hr
+            | _ => exact ihQ _ _ _ _ _ _ _ hp hc h
+        | mapKeyFilter _ _ _ _ => simp [plainPart] at hpp
+        | filter _ _ => simp [plainPart] at hpp
+    · intro parent qi query elements conv st res st' hp hc he h
+      simp only [accumulate] at h
+      split at h
+      · exact leaf_pure h hc
+      · obtain ⟨rows, s1, h1, h2⟩ := M.bind_ok h
+        obtain ⟨rfl, _⟩ := M.pure_ok h2
+        refine M.mapM_flatten_all (QROk doc) _ elements ?_ st rows s1 h1
+        intro a ha s r s' hr
+        exact ihQ _ _ _ _ _ _ _ hp (he a ha) hr
+
+/-- **plain queries are sound**: whatever `queryRetrieval` returns for a query made of keys,
+    indices, `[*]`, `.*` and `this` on a loaded document — for every fuel, scope state and
+    case-conversion mode — each resolved value and each value an unresolved result stopped at
+    sits in the document at the pointer it carries; no literal is produced. -/
+theorem C10_plain_query_sound (env : Env) (x : Plain) (fuel : Nat) (query : List QueryPart)
+    (hq : query.all plainPart = true) (conv : Option Nat) (st st' : St) (res : List QR)
+    (h : queryRetrieval env fuel 0 query (PV.ofPlain x Path.root) conv st = .ok (res, st')) :
+    ∀ r ∈ res, match r with
+      | .resolved v => ∃ segs, Reach (PV.ofPlain x Path.root) segs v ∧ v.path.ptr = ptrOf [] segs
+      | .unresolved u => ∃ segs, Reach (PV.ofPlain x Path.root) segs u.traversedTo ∧ u.traversedTo.path.ptr = ptrOf [] segs
+      | .literal _ => False := by
+  intro r hr
+  have := (plain_sound env (PV.ofPlain x Path.root) fuel).1 0 query _ conv st res st' hq (InDoc.refl _) h r hr
+  cases r with
+  | resolved v => exact C10_reported_path_resolves x v this
+  | unresolved u => exact C10_reported_path_resolves x u.traversedTo this
+  | literal v => exact this
+
+example : [QueryPart.key "a".toList, .allIndices none, .index 1, .allValues none, .this].all plainPart = true := by decide
 
 /-- non-vacuity: a concrete document, a pointer and the value it reaches -/
 example : resolve (PV.ofPlain (.map ["a".toList] [.list [.int 7, .str "x".toList]]) Path.root) ["a".toList, "1".toList]
